@@ -63,7 +63,7 @@ var (
 			Set(0x78, "x").Set(0x79, "y").Set(0x7a, "z").Set(0x7b, "{").
 			Set(0x7c, "|").Set(0x7d, "}").Set(0x7e, "~").
 			Set(0xa0, string([]byte{0xC2, 0xA0})).Set(0xa1, "¡").Set(0xa2, "¢").
-			Set(0xa3, "£").Set(0xa4, "$").Set(0xa5, "¥").Set(0xa7, "§").
+			Set(0xa3, "£").Set(0xa4, "$").Set(0xa5, "¥").Set(0xa7, "§").Set(0xa8, "¤").
 			Set(0xa9, "‘").Set(0xaa, "“").Set(0xab, "«").Set(0xac, "←").
 			Set(0xad, "↑").Set(0xae, "→").Set(0xaf, "↓").
 			Set(0xb0, "°").Set(0xb1, "±").Set(0xb2, "²").Set(0xb3, "³").
@@ -1000,6 +1000,7 @@ var stlUnicodeMapping = astikit.NewBiMap().
 	Set(byte('\xdd'), "\u215C"). // ⅜
 	Set(byte('\xde'), "\u215D"). // ⅝
 	Set(byte('\xdf'), "\u215E"). // ⅞
+	Set(byte('\xe0'), "\u03a9"). // Greek capital omega (what NFD turns the ohm sign into)
 	Set(byte('\xe0'), "\u2126"). // Ohm Ω
 	Set(byte('\xe1'), "\u00C6"). // Æ
 	Set(byte('\xe2'), "\u0110"). // Đ
